@@ -105,6 +105,7 @@ void go(Rng& rng)
             { NHEAD("bin", "sub") VH_RUN(x - y, print_sn) }
             if constexpr (D1 + D2 <= 120) { NHEAD("bin", "mul") VH_RUN(x * y, print_sn) }
             { NHEAD("bin", "div") VH_RUN(x / y, print_sn) }
+            { NHEAD("bin", "mod") VH_RUN(x % y, print_sn) }
             { NHEAD("cmp", "lt") VH_RUN(x < y, print_sn) }
             { NHEAD("cmp", "eq") VH_RUN(x == y, print_sn) }
             { NHEAD("cmp", "ge") VH_RUN(x >= y, print_sn) }
@@ -648,6 +649,7 @@ void gn(Rng& rng)
                 { THEAD("tbin", "mul") VH_RUN(x * y, print_tn) }
                 // a multi-word quotient by zero is not a trap: outside the table
                 if (!b.zero()) { THEAD("tbin", "div") VH_RUN(x / y, print_tn) }
+                if (!b.zero()) { THEAD("tbin", "mod") VH_RUN(x % y, print_tn) }
             }
             { THEAD("tcmp", "lt") VH_RUN(x < y, print_tn) }
             { THEAD("tcmp", "le") VH_RUN(x <= y, print_tn) }
@@ -680,6 +682,60 @@ void gn(Rng& rng)
         fputs(" => ", stdout);
         VH_RUN(([&] { C c = x; return c; }()), print_tn)
     }
+}
+
+// operands of two different narrowest types (width and signedness): `C11 tbin2 <N1> <N2> <mode> <tag> <op> <D1> <E1> <D2> <E2> <a> <b>`,
+// `tcmp2` likewise, `tasg2`: the compound assignment `x OP= y` (the operator, then the conversion to the type of `x`).
+// An unsigned operand against a signed one of either sign is the point: the lattices hold the negative values.
+#define THEAD2(KIND, NAME) \
+    printf("C11 " KIND " %s %s %s %s " NAME " %d %d %d %d ", tn<N1>().c_str(), tn<N2>().c_str(), TagN<R>::name().c_str(), TagN<O>::name().c_str(), D1, E1, D2, E2); \
+    big_print(a); \
+    putchar(' '); \
+    big_print(b); \
+    fputs(" => ", stdout);
+
+template<class R, class O, class N1, class N2, int D1, int E1, int D2, int E2>
+void gn2(Rng& rng)
+{
+    // bare static_integers when both exponents are 0 (a static_integer does not combine with a static_number)
+    constexpr bool Bare = E1 == 0 && E2 == 0;
+    static_assert(sizeof(N1) == sizeof(N2), "narrowest types of different widths have no common elastic type");
+    using A = std::conditional_t<Bare, static_integer<D1, R, O, N1>, static_number<D1, E1, R, O, N1>>;
+    using B = std::conditional_t<Bare, static_integer<D2, R, O, N2>, static_number<D2, E2, R, O, N2>>;
+    auto av = bigvals<D1, numbers::signedness_v<N1>>(rng, 4 * scale_from_env());
+    auto bv = bigvals<D2, numbers::signedness_v<N2>>(rng, 4 * scale_from_env());
+    // small divisors of either sign: |dividend| >= |divisor| on most pairs
+    for (int v : {3, 5, 10}) {
+        Big p = big_small(v), q = big_small(-v);
+        auto has = [](std::vector<Big> const& w, Big const& t) { for (auto const& y : w) if (y == t) return true; return false; };
+        if (p.bitlen() <= D1 && !has(av, p)) av.push_back(p);
+        if (p.bitlen() <= D2 && !has(bv, p)) bv.push_back(p);
+        if (numbers::signedness_v<N1> && q.bitlen() <= D1 && !has(av, q)) av.push_back(q);
+        if (numbers::signedness_v<N2> && q.bitlen() <= D2 && !has(bv, q)) bv.push_back(q);
+    }
+    for (auto const& a : av)
+        for (auto const& b : bv) {
+            A x = mk_t<A>(a);
+            B y = mk_t<B>(b);
+            { THEAD2("tbin2", "add") VH_RUN(x + y, print_tn) }
+            { THEAD2("tbin2", "sub") VH_RUN(x - y, print_tn) }
+            { THEAD2("tbin2", "mul") VH_RUN(x * y, print_tn) }
+            if (!b.zero()) {
+                { THEAD2("tbin2", "div") VH_RUN(x / y, print_tn) }
+                { THEAD2("tbin2", "mod") VH_RUN(x % y, print_tn) }
+                { THEAD2("tasg2", "div") VH_RUN(([&] { A z = x; z /= y; return z; }()), print_tn) }
+                { THEAD2("tasg2", "mod") VH_RUN(([&] { A z = x; z %= y; return z; }()), print_tn) }
+            }
+            { THEAD2("tasg2", "add") VH_RUN(([&] { A z = x; z += y; return z; }()), print_tn) }
+            { THEAD2("tasg2", "sub") VH_RUN(([&] { A z = x; z -= y; return z; }()), print_tn) }
+            { THEAD2("tasg2", "mul") VH_RUN(([&] { A z = x; z *= y; return z; }()), print_tn) }
+            { THEAD2("tcmp2", "lt") VH_RUN(x < y, print_tn) }
+            { THEAD2("tcmp2", "le") VH_RUN(x <= y, print_tn) }
+            { THEAD2("tcmp2", "gt") VH_RUN(x > y, print_tn) }
+            { THEAD2("tcmp2", "ge") VH_RUN(x >= y, print_tn) }
+            { THEAD2("tcmp2", "eq") VH_RUN(x == y, print_tn) }
+            { THEAD2("tcmp2", "ne") VH_RUN(x != y, print_tn) }
+        }
 }
 
 // static (x) built-in, the built-in operand on either side: `C11 mixb <N> <mode> <tag> <op> <D> <E> <L|R> <T> <a> <b>`
@@ -718,6 +774,26 @@ void mixed(Rng& rng)
             MB("mul", *)
             if (b != 0) { mhead<N, R, O, D, E>("mixb", "div", 'R', a, b); VH_RUN(x / b, print_tn) }
             if (!a.zero()) { mhead<N, R, O, D, E>("mixb", "div", 'L', a, b); VH_RUN(b / x, print_tn) }
+            if (b != 0) { mhead<N, R, O, D, E>("mixb", "mod", 'R', a, b); VH_RUN(x % b, print_tn) }
+            if (!a.zero()) { mhead<N, R, O, D, E>("mixb", "mod", 'L', a, b); VH_RUN(b % x, print_tn) }
+            // compound assignment with a built-in right operand: `C11 mixa <N> <mode> <tag> <op> <D> <E> <T> <a> <b>`
+#define MA(OPN, OP) \
+    { \
+        printf("C11 mixa %s %s %s %s %d %d %s ", tn<N>().c_str(), TagN<R>::name().c_str(), TagN<O>::name().c_str(), OPN, D, E, tn<T>().c_str()); \
+        big_print(a); \
+        putchar(' '); \
+        prv(b); \
+        fputs(" => ", stdout); \
+        VH_RUN(([&] { A z = x; z OP b; return z; }()), print_tn) \
+    }
+            MA("add", +=)
+            MA("sub", -=)
+            MA("mul", *=)
+            if (b != 0) {
+                MA("div", /=)
+                MA("mod", %=)
+            }
+#undef MA
             MC("lt", <)
             MC("le", <=)
             MC("gt", >)
